@@ -54,14 +54,21 @@ def compile_liquid_rules(
         rf"{tag_s}-?\s*enddoc\s*(?P<rsd>-?){tag_e}"
     )
 
-    output_pattern = rf"{stmt_s}-?\s*(?P<stmt>.*?)\s*(?P<rss>-?){stmt_e}"
+    # Runs of whitespace after a start delimiter and around a tag's name are matched
+    # with `(?=(?P<x>\s*))(?P=x)`, which is `\s*` without backtracking. Adjacent `\s*`
+    # and `.*?` made the time to reject an unclosed `{{` or `{%` followed by a long run
+    # of whitespace grow with the third or fourth power of its length.
+    output_pattern = (
+        rf"{stmt_s}-?(?=(?P<wss>\s*))(?P=wss)(?P<stmt>.*?)\s*(?P<rss>-?){stmt_e}"
+    )
 
     # The "name" group is zero or more characters so that a malformed tag (one
     # with no name) does not get treated as a literal.
     #
     # The `#` in the `name` group is specifically for the inline comment tag.
     tag_pattern = (
-        rf"{tag_s}-?(?P<pre>\s*(?P<name>#|\w*)\s*)(?P<expr>.*?)\s*(?P<rst>-?){tag_e}"
+        rf"{tag_s}-?(?P<pre>(?=(?P<wst>\s*))(?P=wst)(?P<name>#|\w*)"
+        rf"(?=(?P<wsn>\s*))(?P=wsn))(?P<expr>.*?)\s*(?P<rst>-?){tag_e}"
     )
 
     if not comment_start_string:
